@@ -83,6 +83,28 @@ fn normalise_hashes(raw: &mut RawSchema) {
 	}
 }
 
+/// A hand-written family the model's program language cannot express (const generics …): the case
+/// line only names it, the driver answers `rust-judged`, and the verdict computed here - the
+/// property's own oracle on the implementation's outcome - is what counts.
+pub fn run_family_opaque<T>(name: &str, values: &[T], out: &mut Vec<String>)
+where
+	T: BuildSchema + Serialize + DeserializeOwned + PartialEq + std::fmt::Debug,
+{
+	let mut tmp = vec![];
+	run_family::<T>("0 unit", values, &mut tmp);
+	let outcome = tmp.pop().unwrap_or_else(|| "panic".into());
+	let bad: Vec<&str> = outcome
+		.split(' ')
+		.filter(|t| ["NONDET", "json-REJECTED", "json-err", "schema-err", "err", "rt-NE", "rt-err", "panic", "bad-case"].contains(t))
+		.collect();
+	out.push(format!("derive-opaque {name}"));
+	out.push(if bad.is_empty() {
+		format!("{outcome} # ok")
+	} else {
+		format!("{outcome} # VIOLATION derived schema / round trip of hand-written family {name}: {}", bad.join(" "))
+	});
+}
+
 pub fn run_family<T>(prog: &str, values: &[T], out: &mut Vec<String>)
 where
 	T: BuildSchema + Serialize + DeserializeOwned + PartialEq + std::fmt::Debug,
